@@ -1,4 +1,4 @@
-#!/usr/bin/env python3
+#!/usr/bin/env python3-vt
 """Regenerates /verif/MANIFEST.json from the table below (keeps the file valid and consistent)."""
 import json, subprocess, sys
 
@@ -21,6 +21,11 @@ CHECKS["C06"] = ("exploration",
          "The built binary is run as a subprocess on generated inputs (planted mistakes in random multi-line layout, token mutations, token soups, raw bytes) x shell x destination kind and judged by a validity predicate on exit status, stderr, stdout and the destination file; the same inputs go through the library pipeline and all emitters in-process at 20x the volume to catch panics.",
          "4.C06", "generated inputs (seeded proptest choice streams: grammar-aware mutation + planted mistakes + soups + raw bytes) x validity-predicate oracle on the subprocess; in-process no-panic oracle",
          "process creation is a serial resource on this box (~90 runs/s), so the subprocess part is ~1.5k runs in quick; cyclic definitions are pre-screened out of the in-process part and covered by the subprocess part; a supervisor process turns a harness crash into a verdict by re-judging the traced inputs with the binary")
+
+CHECKS["C08"] = ("exploration",
+         "A clean-by-construction grammar (must be accepted for all four shells) plus at most one planted mistake of a known class at a random place (behind 0-4 operator levels and chains of definitions) is compiled through the library pipeline (Error variant compared with the planted class) and through the binary (exit status + keyword of the first diagnostic line).",
+         "4.C08", "generated grammars (seeded proptest choice streams: clean base + one planted mistake) x construction-known verdict oracle (library Error variant, binary exit status/diagnostic keyword)",
+         "trusted: Appendix B (what counts as clean) and the planted-mistake constructors; cycle cases are judged through the binary only; one known finding (juxtaposed literal + definition reference inside a definition) has a dedicated witness and is avoided by construction")
 
 NOT_YET = {
 }
